@@ -3,7 +3,9 @@ package checks
 import (
 	"encoding/binary"
 	"fmt"
+	"github.com/consensys/gnark/frontend"
 	"math/big"
+	"strings"
 
 	"verifsim/engine"
 	"verifsim/oracle"
@@ -162,6 +164,13 @@ func (c *C03) attackInsertion(x *engine.Ctx, t *tape.Tape, cc *rollup.Circuit, w
 	if v := try("none", hw, rollup.Honest, true); v != nil {
 		return v
 	}
+	if t.Chance(1, 5) {
+		return c.genericHintForgery(x, t, cc, func(p *big.Int) frontend.Circuit {
+			b := cloneInsW(hw)
+			b.InputHash = new(big.Int).Set(p)
+			return rollup.AssignInsertion(b)
+		}, contract, blocks, lg)
+	}
 	switch t.Draw(12) {
 	case 0: // same field element, other integer
 		b := cloneInsW(hw)
@@ -319,6 +328,13 @@ func (c *C03) attackDeletion(x *engine.Ctx, t *tape.Tape, cc *rollup.Circuit, w 
 	if v := try("none", hw, rollup.Honest, true); v != nil {
 		return v
 	}
+	if t.Chance(1, 5) {
+		return c.genericHintForgery(x, t, cc, func(p *big.Int) frontend.Circuit {
+			b := cloneDelW(hw)
+			b.InputHash = new(big.Int).Set(p)
+			return rollup.AssignDeletion(b)
+		}, contract, blocks, lg)
+	}
 	packIdx := func(ix []uint32) []byte {
 		var d []byte
 		for _, q := range ix {
@@ -454,4 +470,49 @@ func cloneDelW(w *oracle.DeletionWitness) *oracle.DeletionWitness {
 		c.Indices[i] = new(big.Int).Set(w.Indices[i])
 	}
 	return &c
+}
+
+// genericHintForgery: the dishonest prover forges whichever hint functions the compiled system uses today
+// (rollup/generic_forge.go) on an otherwise honest, valid batch and is free to present any public input.
+// Whatever it gets accepted must carry the contract's hash of the witnessed batch as its public input.
+func (c *C03) genericHintForgery(x *engine.Ctx, t *tape.Tape, cc *rollup.Circuit, assign func(p *big.Int) frontend.Circuit, contract *big.Int, blocks int, lg *[]attemptLog) *engine.Violation {
+	uses, err := cc.HintUses(assign(contract))
+	if err != nil {
+		panic(fmt.Sprintf("honest solve for hint discovery failed: %v", err))
+	}
+	if len(uses) == 0 {
+		return nil
+	}
+	for k := 0; k < 3; k++ {
+		u := uses[t.Pick(len(uses))]
+		if u.Outputs == 0 {
+			continue
+		}
+		g := &rollup.GenericForge{ID: u.ID, Out: t.Draw(u.Outputs), Delta: t.Draw(3), Comp: t.Draw(7)}
+		if len(u.Keys) > 0 && t.Chance(1, 2) {
+			g.Match = u.Keys[t.Pick(len(u.Keys))]
+		}
+		short := u.Name
+		if i := strings.LastIndexAny(short, "/."); i >= 0 {
+			short = short[i+1:]
+		}
+		hs := &rollup.HintStrategy{Name: "generic/" + short, Generic: g}
+		v, p := cc.ForgeWithFreePublicInput(assign, contract, hs)
+		x.S.Eval(1)
+		if hs.Fired.Load() > 0 {
+			x.S.Count("fault:hint-forgery/generic-output-shift-with-linear-compensation")
+			x.S.Count("fault:hint-forgery/generic/" + short)
+		}
+		same := oracle.Mod(p).Cmp(contract) == 0
+		x.S.Seen(fmt.Sprintf("%s/blocks%d/generic-hint-forgery/%s/out%d/d%d/c%d/all%v/%v", cc.Key(), blocks, short, g.Out%4, g.Delta, g.Comp, g.Match == "", v.Accepted))
+		x.Log.Addf("prover", "generic-hint-forgery", "%s hint=%s out=%d delta=%d comp=%d all=%v public-is-contract-hash=%v accepted=%v", cc.Key(), short, g.Out, g.Delta, g.Comp, g.Match == "", same, v.Accepted)
+		*lg = append(*lg, attemptLog{Op: cc.Mode, Fault: "generic-hint-forgery/" + short, Oracle: verdictStr(same), Circuit: verdictStr(v.Accepted), Hints: hs.Name})
+		if v.SolverOK != v.EvalOK {
+			panic("solver and independent evaluator disagree")
+		}
+		if v.Accepted && !same {
+			return engine.Violatef("C03/unbound-public-input-accepted/generic-hint-forgery/"+short, "%s: with the outputs of hint %s forged (output %d shifted, the others compensated linearly) the circuit is satisfied for public input %s, which is not the contract's hash %s of the witnessed batch", cc.Key(), u.Name, g.Out, p.Text(16), contract.Text(16))
+		}
+	}
+	return nil
 }
